@@ -28,6 +28,8 @@ def make_spacetime(desc, seed):
         return fields.de_sitter()
     if kind == 'schw':
         return gr.schwarzschild_iso(1.0)
+    if kind == 'poly':
+        return fields.poly_spacetime(seed=seed)
     raise ValueError(desc)
 
 
@@ -39,6 +41,10 @@ def grid_param(desc, N):
         d = 2.0 / N
         return ({'Nx': N, 'Ny': N, 'Nz': N, 'xmin': -0.9, 'ymin': -1.1,
                  'zmin': -0.7, 'dx': d, 'dy': d, 'dz': d}, 'no boundary')
+    if kind == 'poly':
+        d = 2.0 / (N - 1)
+        return ({'Nx': N, 'Ny': N, 'Nz': N, 'xmin': -1.0, 'ymin': -1.0,
+                 'zmin': -1.0, 'dx': d, 'dy': d, 'dz': d}, 'no boundary')
     if kind == 'schw':
         d = 2.0 / N
         return ({'Nx': N, 'Ny': N, 'Nz': N, 'xmin': 2.0, 'ymin': 2.2,
